@@ -201,7 +201,12 @@ def _existence(rec, obj, name, misfit, validate, sig):
 def _polygon(case, rec):
     xy = build_poly2(case)
     em = gp.embed(xy, dict(case["emb"], cw=False, reflex_first=False))
-    scale = 10.0 ** case["logs"]
+    logs = case["logs"]
+    if logs > 5.0 and case["emb"]["place"] is not None:
+        # tilted plane: beyond ~1e6 the rounded coordinates fail Polygon's documented planarity test
+        # (|n.v - d| <= 1e-8 + planar_tolerance*|d|) for rounding alone - same stated limit as in C04/C15
+        logs = 5.0
+    scale = 10.0 ** logs
     V = em["verts"] * scale
     arg = em["normal_arg"]
     kind = case["kind"]
